@@ -20,6 +20,17 @@ Lemma keeps_estate s : keeps_shape (set_estate s).
 Proof. intro x. cbn. auto. Qed.
 Lemma keeps_pend p : keeps_shape (set_pend p).
 Proof. intro x. cbn. auto. Qed.
+Lemma keeps_add n : keeps_shape (add_pend n).
+Proof. intro x. cbn. auto. Qed.
+Lemma keeps_leave st : keeps_shape (leave_upd st).
+Proof. intro x. cbn. auto. Qed.
+Lemma keeps_comp f g : keeps_shape f -> keeps_shape g -> keeps_shape (fun y => f (g y)).
+Proof.
+  intros Hf Hg x. destruct (Hf (g x)) as [A1 [A2 [A3 A4]]]. destruct (Hg x) as [B1 [B2 [B3 B4]]].
+  repeat split; congruence.
+Qed.
+Lemma keeps_goerr : keeps_shape (fun y => set_estate ES_ERROR (if N.leb (e_state y) ES_RUNNING then leave_upd (e_state y) y else y)).
+Proof. intro x. destruct (N.leb (e_state x) ES_RUNNING); cbn; auto. Qed.
 
 Lemma lmoves_kept e l l' : lmoves e l l' -> envs_kept e l l'.
 Proof.
@@ -167,7 +178,7 @@ Proof.
   { replace r1 with (fst (release e torelease (s_roster s))) by (rewrite E1; reflexivity).
     constructor. constructor. }
   destruct (negb (N.eqb n1 0)); cbn [td_st].
-  { apply good_mk; [exact M1|constructor|intros k []]. }
+  { apply good_mk; [exact M1|constructor; [constructor|apply keeps_add]|intros k []]. }
   set (lastmsg := flat_map (group_tasks e) groups).
   destruct (release e lastmsg r1) as [r2 n2] eqn:E2.
   assert (M2 : emoves e (s_roster s) r2).
@@ -190,7 +201,7 @@ Qed.
 Lemma go_error_good e s s' rc : go_error e s = (s', rc) -> good e s s' [].
 Proof.
   unfold go_error. destruct (find_env e (s_envs s)); intro H; inversion H; subst.
-  - unfold with_envs. apply good_mk; [constructor|constructor; [constructor|apply keeps_estate]|intros k []].
+  - unfold with_envs. apply good_mk; [constructor|constructor; [constructor|apply keeps_goerr]|intros k []].
   - apply good_refl.
 Qed.
 
@@ -209,7 +220,7 @@ Proof.
     eapply go_error_good; eauto. }
   destruct (transition x tdst fail (s_roster s)) as [[r' tg] ok] eqn:Et.
   apply transition_spec in Et. rewrite Ex in Et. destruct Et as [Em Etg].
-  set (pend' := if N.eqb ev 1 then _ else _).
+  set (pend' := e_pend x + _ + _).
   destruct ok.
   - intro H; inversion H; subst. unfold ks; cbn [o_kills o_cmds app with_envs s_envs s_snaps].
     apply good_mk; [exact Em| |exact Etg].
@@ -248,6 +259,38 @@ Proof.
     + intros y Hy. eapply kill_touched. rewrite Ek. exact Hy.
 Qed.
 
+Lemma destroy_tail_good e x keep s s1 o1 go_on tf s' u :
+  e_id x = e -> good e s s1 (ks o1) ->
+  destroy_tail e x keep s1 o1 go_on tf = (s', u) -> good e s s' (ks u).
+Proof.
+  intros Ex G1. unfold destroy_tail.
+  destruct (negb go_on).
+  { destruct (dtc true false x s1) as [s2 o2] eqn:Ed. intro H; injection H as <- <-.
+    apply dtc_good in Ed. rewrite Ex in Ed. eapply good_seq; eauto. }
+  destruct (find_env e (s_envs s1)) as [x1|] eqn:Ef1.
+  2:{ intro H; injection H as <- <-. eapply good_weaken; [exact G1|]. intros k []. }
+  pose proof (find_env_id _ _ _ Ef1) as Ex1. cbv zeta.
+  destruct (negb (N.eqb (e_state x1) ES_CONFIGURED || N.eqb (e_state x1) ES_DEPLOYED || N.eqb (e_state x1) ES_STANDBY)).
+  { destruct (dtc true false x s1) as [s2 o2] eqn:Ed. intro H; injection H as <- <-.
+    apply dtc_good in Ed. rewrite Ex in Ed. eapply good_seq; eauto. }
+  destruct (N.eqb (e_state x1) ES_CONFIGURED).
+  2:{ destruct (dtc false keep x s1) as [s3 o3] eqn:Ed. intro H; injection H as <- <-.
+      apply dtc_good in Ed. rewrite Ex in Ed. eapply good_seq; eauto. }
+  destruct (transition x1 TS_STANDBY tf (s_roster s1)) as [[r' tg] ok] eqn:Et.
+  apply transition_spec in Et. rewrite Ex1 in Et. destruct Et as [Em Etg].
+  assert (G2 : forall l', lmoves e (s_envs s1) l' ->
+               good e s (mkSt l' r' (s_snaps s1)) (ks (out_seq o1 (mkOut 0 [] tg [] [] 0 [])))).
+  { intros l' Hl. eapply good_seq; [exact G1|].
+    unfold ks; cbn [o_kills o_cmds app]. apply good_mk; auto. }
+  destruct ok.
+  - destruct (dtc false keep x _) as [s3 o3] eqn:Ed. intro H; injection H as <- <-.
+    apply dtc_good in Ed. rewrite Ex in Ed. eapply good_seq; [|exact Ed].
+    apply G2. constructor; [constructor|]. apply keeps_comp; [apply keeps_estate|apply keeps_leave].
+  - destruct (dtc true false x _) as [s3 o3] eqn:Ed. intro H; injection H as <- <-.
+    apply dtc_good in Ed. rewrite Ex in Ed. eapply good_seq; [|exact Ed].
+    apply G2. constructor; [constructor|apply keeps_leave].
+Qed.
+
 Lemma destroy_good e force allow keep tfail s s' u :
   destroy e force allow keep tfail s = (s', u) -> good e s s' (ks u).
 Proof.
@@ -256,60 +299,13 @@ Proof.
   pose proof (find_env_id _ _ _ Ef) as Ex.
   destruct force.
   { intro H. apply dtc_good in H. rewrite Ex in H. exact H. }
-  (* the optional STOP_ACTIVITY *)
-  assert (P : forall s1 o1 (go_on tf : bool),
-             good e s s1 (ks o1) ->
-             (if negb go_on
-              then let '(s2, o2) := dtc true false x s1 in (s2, out_seq o1 o2)
-              else match find_env e (s_envs s1) with
-                   | None => (s1, out_rc 1)
-                   | Some x1 =>
-                       let st1 := e_state x1 in
-                       if negb (N.eqb st1 ES_CONFIGURED || N.eqb st1 ES_DEPLOYED || N.eqb st1 ES_STANDBY)
-                       then let '(s2, o2) := dtc true false x s1 in (s2, out_seq o1 o2)
-                       else if N.eqb st1 ES_CONFIGURED
-                            then let '(r', targets, ok) := transition x1 TS_STANDBY tf (s_roster s1) in
-                                 let o1' := out_seq o1 (mkOut 0 [] targets [] [] 0 []) in
-                                 if ok
-                                 then let s2 := mkSt (upd_env e (set_estate ES_DEPLOYED) (s_envs s1)) r' (s_snaps s1) in
-                                      let '(s3, o3) := dtc false keep x s2 in (s3, out_seq o1' o3)
-                                 else let '(s3, o3) := dtc true false x (with_roster s1 r') in (s3, out_seq o1' o3)
-                            else let '(s3, o3) := dtc false keep x s1 in (s3, out_seq o1 o3)
-                   end) = (s', u) -> good e s s' (ks u)).
-  { intros s1 o1 go_on tf G1.
-    destruct (negb go_on).
-    { destruct (dtc true false x s1) as [s2 o2] eqn:Ed. intro H; injection H as <- <-.
-      apply dtc_good in Ed. rewrite Ex in Ed. eapply good_seq; eauto. }
-    destruct (find_env e (s_envs s1)) as [x1|] eqn:Ef1.
-    2:{ intro H; injection H as <- <-. eapply good_weaken; [exact G1|]. intros k []. }
-    pose proof (find_env_id _ _ _ Ef1) as Ex1. cbv zeta.
-    destruct (negb (N.eqb (e_state x1) ES_CONFIGURED || N.eqb (e_state x1) ES_DEPLOYED || N.eqb (e_state x1) ES_STANDBY)).
-    { destruct (dtc true false x s1) as [s2 o2] eqn:Ed. intro H; injection H as <- <-.
-      apply dtc_good in Ed. rewrite Ex in Ed. eapply good_seq; eauto. }
-    destruct (N.eqb (e_state x1) ES_CONFIGURED).
-    2:{ destruct (dtc false keep x s1) as [s3 o3] eqn:Ed. intro H; injection H as <- <-.
-        apply dtc_good in Ed. rewrite Ex in Ed. eapply good_seq; eauto. }
-    destruct (transition x1 TS_STANDBY tf (s_roster s1)) as [[r' tg] ok] eqn:Et.
-    apply transition_spec in Et. rewrite Ex1 in Et. destruct Et as [Em Etg].
-    assert (G2 : forall l', lmoves e (s_envs s1) l' ->
-                 good e s (mkSt l' r' (s_snaps s1)) (ks (out_seq o1 (mkOut 0 [] tg [] [] 0 [])))).
-    { intros l' Hl. eapply good_seq; [exact G1|].
-      unfold ks; cbn [o_kills o_cmds app]. apply good_mk; auto. }
-    destruct ok.
-    - destruct (dtc false keep x _) as [s3 o3] eqn:Ed. intro H; injection H as <- <-.
-      apply dtc_good in Ed. rewrite Ex in Ed. eapply good_seq; [|exact Ed].
-      apply G2. constructor; [constructor|apply keeps_estate].
-    - destruct (dtc true false x _) as [s3 o3] eqn:Ed. intro H; injection H as <- <-.
-      apply dtc_good in Ed. rewrite Ex in Ed. eapply good_seq; [|exact Ed].
-      unfold with_roster. apply G2. constructor. }
   destruct (allow && N.eqb (e_state x) ES_RUNNING).
   - destruct (transition x TS_CONFIGURED tfail (s_roster s)) as [[r' tg] ok] eqn:Et.
     apply transition_spec in Et. rewrite Ex in Et. destruct Et as [Em Etg].
-    destruct ok.
-    + apply P. unfold ks; cbn [o_kills o_cmds app]. apply good_mk; auto.
-      constructor; [constructor|apply keeps_estate].
-    + apply P. unfold ks, with_roster; cbn [o_kills o_cmds app]. apply good_mk; auto. constructor.
-  - apply P. apply good_refl.
+    destruct ok; apply destroy_tail_good; auto; unfold ks; cbn [o_kills o_cmds app]; apply good_mk; auto.
+    + constructor; [constructor|]. apply keeps_comp; [apply keeps_estate|apply keeps_leave].
+    + constructor; [constructor|apply keeps_leave].
+  - apply destroy_tail_good; auto. apply good_refl.
 Qed.
 
 (* ------------------------------------------------------------------ creation *)
@@ -491,7 +487,7 @@ Proof.
   set (x0 := mkEnv e (c_dets c) ES_STANDBY (c_roles c) false 0).
   destruct (N.eqb (c_fail c) 4).
   { (* a critical role nobody can take: nothing was launched *)
-    set (xe := set_estate ES_ERROR x0).
+    set (xe := set_estate ES_ERROR (leave_upd ES_STANDBY (leave_upd ES_STANDBY x0))).
     destruct (create_tail xe _ [] []) as [s2 u2] eqn:Ec. intro H; injection H as <- <-.
     apply create_tail_good in Ec. destruct Ec as [G Ecm]. change (e_id xe) with e in G.
     assert (Im : inv (with_envs s0 (s_envs s0 ++ [xe]))).
@@ -523,7 +519,7 @@ Proof.
   { apply (inv_nodup _ (IL x1 eq_refl eq_refl eq_refl)). }
   destruct (existsb _ (c_roles c) || N.eqb (c_fail c) 5).
   { (* a task failed right after its launch / the deployment timed out *)
-    set (xe := set_estate ES_ERROR x1).
+    set (xe := set_estate ES_ERROR (leave_upd ES_STANDBY (leave_upd ES_STANDBY x1))).
     destruct (create_tail xe _ [] _) as [s2 u2] eqn:Ec. intro H; injection H as <- <-.
     apply create_tail_good in Ec. destruct Ec as [G Ecm]. change (e_id xe) with e in G.
     split; [eapply good_inv; [|exact G]; apply (IL xe); reflexivity|].
@@ -536,7 +532,7 @@ Proof.
   set (targets := active_owned_in e (bound_tids x1) r1).
   set (refuse := map _ (filter _ (task_iroles x1))).
   set (r2 := command e targets refuse TS_CONFIGURED r1).
-  set (x2 := set_pend (pend_roles x1) x1).
+  set (x2 := add_pend (pend_roles x1) (leave_upd ES_DEPLOYED (leave_upd ES_STANDBY x1))).
   assert (Tt : forall k, In k targets -> touched e (s_roster s ++ new) k).
   { intros k Hk. eapply active_owned_touched. exact Hk. }
   assert (I2 : forall x, e_id x = e -> e_roles x = e_roles x1 -> e_bound x = true ->
@@ -547,7 +543,7 @@ Proof.
     - constructor.
     - intros k []. }
   destruct (existsb _ (c_roles c)).
-  { set (xe := set_estate ES_ERROR x2).
+  { set (xe := set_estate ES_ERROR (leave_upd ES_DEPLOYED x2)).
     destruct (create_tail xe _ targets _) as [s2 u2] eqn:Ec. intro H; injection H as <- <-.
     apply create_tail_good in Ec. destruct Ec as [G Ecm]. change (e_id xe) with e in G.
     split; [eapply good_inv; [|exact G]; apply (I2 xe); reflexivity|].
@@ -650,7 +646,7 @@ Lemma step_spec s o s' u :
   inv s -> wf_op s o = true -> step s o = (s', u) ->
   inv s' /\ (is_request o = true -> frame_of o s s' u).
 Proof.
-  intros I W. destruct o as [e missing|e c|e c|e ev fail|e force allow keep tfail| |ids|t|fids];
+  intros I W. destruct o as [e missing|e c|e c|e ev fail|e force allow keep tfail| |ids|t|fids|];
     cbn [step wf_op is_request] in *; unfold frame_of; cbn [op_env].
   - (* OSnap *)
     apply negb_true_iff in W. destruct missing.
@@ -717,6 +713,9 @@ Proof.
     intro H; injection H as <- <-. split; [apply dies_inv, I|discriminate].
   - (* OFail *)
     intro H; injection H as <- <-. split; [apply fail_inv, I|discriminate].
+  - (* ORecon: by the source fact uts_executor_write_guarded the update changes nothing *)
+    intro H; injection H as <- <-. rewrite recon_tasks_id. split; [|discriminate].
+    destruct s; exact I.
 Qed.
 
 Lemma valid_run_inv ops : forall s, inv s -> valid_hist s ops = true -> inv (run s ops).
